@@ -41,7 +41,7 @@ ALPHAS = [0.05, 0.2, 0.5]
 def bounds(tier):
     q = tier == "quick"
     return {"pilot vector length": "1..3" if q else "1..4", "grid": "k=2" if q else "k=2 and k=3", "N": [5, 8, 12] if q else list(range(5, 13)), "alpha": ALPHAS,
-            "scripted tails": "all |x|^(N-|x|) for N-|x| <= 4" if q else "all for N-|x| <= 5", "rates": [0, 0.25, 0.3, 0.5], "interleave": "[0..6]^3"}
+            "scripted tails": "all |x|^(N-|x|) for N-|x| <= 4" if q else "all for N-|x| <= 5", "rates": [0, 0.25, 0.28, 0.3, 0.5, 0.6], "interleave": "[0..6]^3"}
 
 
 METHODS = [
@@ -408,7 +408,7 @@ def run_shard(sh, rec):
         m = METHODS[mi]
         for k_win in range(N // 2 + 1, N + 1):
             rec.state()
-            for r1, r2 in itertools.product((0, 0.25, 0.3, 0.5), repeat=2):
+            for r1, r2 in itertools.product((0, 0.25, 0.28, 0.3, 0.5, 0.6), repeat=2):
                 for alpha in ALPHAS:
                     for at in (Audit.AUDIT_TYPE.CARD_COMPARISON, Audit.AUDIT_TYPE.ONEAUDIT):
                         v, got = judge_comparison(m, N, k_win, r1, r2, alpha, at)
